@@ -13,7 +13,7 @@ import AITB.Props.C12Pruner
 import Mathlib.Tactic.IntervalCases
 import Mathlib.Tactic.NormNum
 
-namespace AITB.POMDP
+namespace AITB.POMDP3
 open AITB.MDP
 
 theorem getD_get_mem (Γ : Array Vec) (P : Vec → Prop) (hP : ∀ v, v ∈ Γ.toList → P v) (hne : 0 < Γ.size) (i : Nat) (hi : i ≤ Γ.size - 1) :
@@ -135,4 +135,4 @@ theorem conservative_skip_counterexample :
 example : LBSound mW (linV mW.S (fun _ => -2)) (conservativeAlphaOf false mW bW ΓW 0).get :=
   conservativeAlpha_sound mW mW_valid _ mW_ref_superSol bW ΓW (by decide) ΓW_sound 0 (by decide)
 
-end AITB.POMDP
+end AITB.POMDP3
